@@ -64,6 +64,8 @@ def render(items, doctype: str, indent: str = "  "):
             lines.append(f"{pad}<o>before<!--{COMMENT_OK}-->after</o>")
         elif k == "p":
             lines.append(f"{pad}<?pi some data?>")
+        elif k == "e":
+            lines.append(f'{pad}<o q="\u00fc">caf\u00e9</o>')
         elif k == "r":
             lines.append(f'{pad}<o q="x&#13;&#10;&#9;y">a&#13;b&#13;&#10;c</o>')
         elif k == "added":
@@ -133,7 +135,14 @@ def check_xml(chk: Check) -> None:
         root = base / f"x{n}"
         root.mkdir()
         path = root / "doc.xml"
-        path.write_text(text)
+        latin1 = n % 2 == 0 and "caf\u00e9" in text
+        if latin1:   # a well-formed document in another declared encoding
+            text = text.replace('encoding="utf-8"', 'encoding="iso-8859-1"', 1)
+            want_text = want_text.replace('encoding="utf-8"', 'encoding="iso-8859-1"', 1)
+            path.write_bytes(text.encode("iso-8859-1"))
+        else:
+            path.write_text(text, encoding="utf-8")
+        stored = path.read_bytes()
         targets = sorted((p for p in where if p and p[0] != "end" and _node(items, p)["k"] == "t"), key=lambda p: (p[0], len(p), p))
         if sc["kind"] == "attr":
             if sc["sel"] == "all":
@@ -161,7 +170,8 @@ def check_xml(chk: Check) -> None:
         except Exception as ex:  # noqa: BLE001
             chk.violation(f"C19|xml|{sc['kind']}|raises|{type(ex).__name__}", f"XML pipeline raised {type(ex).__name__}: {ex}", {"document": text})
             continue
-        after = path.read_text()
+        raw = path.read_bytes()
+        after = text if raw == stored else raw.decode("utf-8", "replace")
         problems = []
         if fc.failures and cs is None and after == text:
             # the pipeline declined the document (external DTD references are refused on purpose) and left it alone
